@@ -140,8 +140,35 @@ def checkGroups (cfg : Cfg) : Nat → List String → String
         | _, _, none => s!"bad-post step={k}"
       | _ => s!"bad-group step={k}"
 
+/-- `dhcp.new <mode>,<host>,<router>,<homeLan>,<homeBits>,<nfAddr>,<nfBits>,<dns|~> <cfgdump | err>`: what `Config.New`
+    made of the NIC information and the configuration (`err`: it refused them) against `mkCfg` / `NewCfg.accepted` -/
+def parseNewCfg (s : String) : Option NewCfg :=
+  match s.splitOn "," with
+  | [mode, host, router, hl, hb, na, nb, dns] => do
+    let mode ← match mode with
+      | "1" => some Mode.primary | "2" => some Mode.secondary | "3" => some Mode.nice | _ => none
+    some { mode := mode, host := ← nat? host, router := ← nat? router, homeLan := ← nat? hl, homeBits := ← nat? hb,
+           nfAddr := ← nat? na, nfBits := ← nat? nb, dns := ← optNat? dns }
+  | _ => none
+
+def showSubnet (n : Subnet) : String := s!"{n.lan},{n.bits},{n.gw},{n.dns},{n.server},{n.first},{n.dur}"
+
+def checkNew (n : NewCfg) (dump : String) : String :=
+  if dump == "err" then (if n.accepted then "reject want=constructed" else "accept")
+  else if !n.accepted then "reject want=err"
+  else
+    match parseCfg dump with
+    | none => "bad-cfg"
+    | some cfg =>
+      if cfg == mkCfg n then "accept"
+      else s!"reject want={showSubnet (mkCfg n).net1} {showSubnet (mkCfg n).net2}"
+
 def handle (cmd : String) (args : List String) : Option String :=
   match cmd, args with
+  | "dhcp.new", [n, dump] =>
+    match parseNewCfg n with
+    | some n => some (checkNew n dump)
+    | none => some "bad-new"
   | "dhcp.step", [cfg, pre, op, post, replies] =>
     match parseCfg cfg, parseState pre, parseOp op, parseState post with
     | some cfg, some pre, some op, some post =>
